@@ -197,6 +197,11 @@ def check_stacking(case):
     for i in case["history"]:
         X, y, sw_ = datasets[i]
         kw = dict(sample_weight=sw_) if (case.get("use_weights") and sw_ is not None and all_learners) else {}
+        if kw and case.get("zero_w"):
+            sw_ = sw_.copy()
+            for zi in case["zero_w"]:
+                sw_[zi % len(sw_)] = 0.0          # exact zeros are legal weights: every member still receives all rows
+            kw = dict(sample_weight=sw_)
         r = st_.fit(X, y, **kw)
         require(r is st_, "stacking:fit-not-self", "", facts)
         Z = np.vstack([X[:3], X[::4]])
@@ -232,11 +237,13 @@ def _stacking_cases(draw, tier="quick"):
     for _ in range(n):
         kind = draw(st.sampled_from(["reg", "reg", "tr"] if task == "reg" else ["clf", "clf", "reg", "tr"]))
         wrap = kind in ("reg", "clf") and draw(st.booleans())
-        model = R.s_regressor(draw) if kind == "reg" else (R.s_classifier(draw) if kind == "clf" else _models_for(kind, draw))
+        # recording members answer with a signature of the training set they were given (number of rows, weighted target sum)
+        model = R.s_regressor(draw, recording=True) if kind == "reg" else (R.s_classifier(draw) if kind == "clf" else _models_for(kind, draw))
         members.append(dict(model=model, wrap=wrap, wrap_method="predict" if (wrap and kind == "clf") else (draw(st.sampled_from([None, "predict"])) if wrap else None)))
     datasets = [R.d_reg(draw), R.d_reg(draw)] if task == "reg" else [R.d_clf(draw), R.d_clf(draw)]
     return dict(members=members, method=draw(st.sampled_from([None, "predict"])), datasets=datasets, use_weights=draw(st.booleans()) and task == "reg",
-                history=[draw(st.integers(0, 1)) for _ in range(draw(st.integers(1, 3)))], task=task)
+                history=[draw(st.integers(0, 1)) for _ in range(draw(st.integers(1, 3)))], task=task,
+                zero_w=draw(st.lists(st.integers(0, 30), max_size=3)) if draw(st.integers(0, 2)) == 0 else [])
 
 
 # ------------------------------------------------------------------------------- transfer
